@@ -4,6 +4,7 @@ import PsVerif.Model.T1Encode
 import Driver.Canon
 import PsVerif.Model.PFB
 import PsVerif.Model.Names
+import PsVerif.Model.Query
 /-!
 `psdriver`: reads one case per line from stdin, prints the model's canonical result
 line for each.  A line the driver cannot parse gives `bad-op` (never a default).
@@ -58,6 +59,22 @@ def handle (line : String) : String :=
         hexOfBytes (ofU8 c.1) ++ ":" ++ (match c.2 with
           | none => "nil" | some .eof => "EOF" | some .unexpectedEOF => "unexpectedEOF" | some .invalidPFB => "invalidPFB")))
     | _, _, _ => "bad-op"
+  | ["glist", keys, enc] =>
+    match mapM? bytesOfHex (splitList keys ","), mapM? bytesOfHex (splitList enc ",") with
+    | some ks, some en => String.intercalate "," ((Query.glyphList ks en).map hexOfBytes) ++ " " ++ toString (Query.numGlyphs ks)
+    | _, _ => "bad-op"
+  | ["bbox", pts] =>
+    match mapM? (fun (p : String) => match p.splitOn ":" with
+        | [x, y] => do pure ((← parseInt x), (← parseInt y))
+        | _ => none) (splitList pts ";") with
+    | some ps => let r := Query.glyphBBox ps; s!"{r.llx} {r.lly} {r.urx} {r.ury}"
+    | none => "bad-op"
+  | ["fbox", kind, rects] =>
+    match mapM? (fun (p : String) => match p.splitOn ":" with
+        | [a, b, c, d] => do pure (Query.Rect.mk (← parseInt a) (← parseInt b) (← parseInt c) (← parseInt d))
+        | _ => none) (splitList rects ";") with
+    | some rs => let r := if kind == "afm" then Query.afmFontBBox rs else Query.fontBBox rs; s!"{r.llx} {r.lly} {r.urx} {r.ury}"
+    | none => "bad-op"
   | ["tou", d, h] =>
     match bytesOfHex h with
     | some bs => String.intercalate "," ((Names.toUnicode bs (d == "1")).map toString)
